@@ -13,8 +13,8 @@ import impl
 from framework import Case, Finding
 
 PROP = "C19"
-GENERATED = ['Guards']  # generated files this check's tie depends on
-LEAN_MODULES = ["Properties.C19"]
+GENERATED = ['Guards', 'SrcDecorate']  # generated files this check's tie depends on
+LEAN_MODULES = ["Properties.C19", "Properties.Prov.Decorate"]
 NEEDS_DTYPES = False
 LEVEL = "proof"
 RULE = (
